@@ -285,16 +285,22 @@ def po_update(S):
     S.check("wallet-WETH-untouched", w.broker._assets[w.weth].balance == we0)
 
 
-@proof("C14", "get_twap_price==geometric-mean-over-the-trailing-7-bars(bounded)", strength="B", config={"bounded_samples": {"quick": 200, "thorough": 3000}})
+@proof("C14", "get_twap_price==geometric-mean-over-the-trailing-seven-minute-window(bounded)", strength="B", config={"bounded_samples": {"quick": 300, "thorough": 4000}})
 def po_twap(S):
     """bounded stand-in (pandas time slicing and math.log/pow are outside the interpreter): the real get_twap_price on a random
-    minute frame equals the geometric mean of exactly the rows in [now - 6 min, now] (clipped to the first row) — 7 bars ending now"""
+    frame equals the geometric mean of exactly the rows whose TIMESTAMP lies in [now - 6 min, now] (clipped to the first row): seven
+    bars on a one-minute grid, fewer on a coarser or gappy grid (bars every 2, 5, 60 minutes, or minute bars with holes)"""
     import pandas as pd
     from demeter import MarketStatus
     n = S.int("rows", 1, 14)
     k = S.int("now_index", 0, 13)
     S.assume(k < n)
-    t = pd.date_range(T0, periods=n, freq="min")
+    step = [1, 1, 2, 5, 60, 0][S.int("grid", 0, 5)]
+    if step:
+        t = pd.date_range(T0, periods=n, freq=f"{step}min")
+    else:       # minute bars with holes: gaps of 1..4 minutes
+        gaps = [1 + (S.int(f"gap{i}", 0, 3)) for i in range(14)][:n]
+        t = pd.DatetimeIndex([T0 + pd.Timedelta(minutes=sum(gaps[:i])) for i in range(n)])
     eth = [S.dec(f"eth{i}", 500, 5000) for i in range(14)][:n]
     osq = [S.dec(f"osq{i}", Decimal("0.01"), 1) for i in range(14)][:n]
     m = SqueethMarket(w_info(), None)
@@ -302,8 +308,7 @@ def po_twap(S):
     m.set_market_status(MarketStatus(t[k]), None)
     from demeter.squeeth._typing import WETH, oSQTH
     for tok, col in ((WETH, eth), (oSQTH, osq)):
-        lo = max(0, k - 6)
-        window = col[lo:k + 1]
+        window = [col[i] for i in range(n) if t[k] - pd.Timedelta(minutes=6) <= t[i] and t[i] <= t[k]]
         prod = Decimal(1)
         for x in window:
             prod = prod * x
